@@ -620,6 +620,9 @@ func (sc *serverConn) handleStreams() {
 		return true
 	}
 
+	// refusedLast is the highest stream id the peer opened and we refused.
+	var refusedLast uint32
+
 	isClosing := func() bool {
 		return atomic.LoadInt32((*int32)(&sc.state)) == int32(connStateClosed)
 	}
@@ -857,7 +860,7 @@ loop:
 				// implicitly closed (RFC 7540 5.1.1). That has to be said before
 				// the concurrency limit gets a say: refusing it would reset a
 				// stream that does not exist.
-				if fr.Stream() < sc.lastID {
+				if fr.Stream() < sc.lastID || fr.Stream() < refusedLast {
 					sc.writeGoAway(fr.Stream(), ProtocolError, "stream ID is lower than the latest")
 
 					if doneAfterGoAway() {
@@ -891,6 +894,13 @@ loop:
 
 					sc.writeReset(fr.Stream(), RefusedStreamError)
 					markClosed(fr.Stream())
+
+					// The peer has used this id all the same, and with it every
+					// id below (RFC 7540 5.1.1). lastID cannot say so: it is what
+					// GOAWAY reports as acted upon, and a refused stream was not.
+					if fr.Stream() > refusedLast {
+						refusedLast = fr.Stream()
+					}
 
 					continue
 				}
